@@ -599,6 +599,13 @@ class Executor:
             if self.feasible(s_ok):
                 yield s_ok, self.typed_read(h.c["sa"][base.t][ii], ety, s_ok)
             return
+        if ty[0] == "fixtup":
+            i = z3.simplify(as_int(idx))
+            if z3.is_int_value(i) and -len(ty[1]) <= i.as_long() < len(ty[1]):
+                k = i.as_long() % len(ty[1])
+                yield s, self.typed_read(h.c["sa"][base.t][k], ty[1][k], s)
+                return
+            raise Unsupported("symbolic index into fixed-shape tuple")
         if self.pure_depth:
             return_t = z3.Function("subscript_undef", V, V, V)(base.t, to_v(idx, s))  # spec-level: unspecified, never reached at run time
             yield s, Val(return_t, ANY)
